@@ -203,6 +203,7 @@ def kind_key(kind, detail):
 def check_one(job):
     names, oi = job
     st = smt.Stats()
+    smt.STATS = st  # path-feasibility queries of the machines are charged to this job too
     src = build(names)
     status, emitted, kinds, counts = run_program(src, oi, st)
     out = {"job": job, "src": src, "status": status, "sigs": [], "counts": counts, "emitted": emitted if status == "ok" else None}
@@ -288,6 +289,7 @@ def run(tier):
 
 def replay(rec):
     st = smt.Stats()
+    smt.STATS = st  # path-feasibility queries of the machines are charged to this job too
     for oi, o in enumerate(OPTION_SETS):
         if o == rec.get("options"):
             break
